@@ -276,6 +276,20 @@ def run(env):
     res2 = env.drive("noncanonical", cw.text())
     env.require_complete(res2, "noncanonical")
     env.pmap(monitor, res2.sessions, workload="noncanonical")
+    if not env.quick():
+        # info / psk / psk_id of 2^32+5 bytes: one byte changed near the far end, and one near the front
+        from lib import giant
+
+        def judge(env, sess, op, big):
+            r = op.ret
+            if r.get("r_exp") != r.get("s_exp"):
+                env.inconclusive.append("giant %s: unperturbed receiver does not agree with the sender (%s)" % (op.args["which"], r.get("r_exp", "")[:40]))
+                return
+            if r.get("p_exp") == r.get("s_exp"):
+                env.violation("C07:giant:%s" % op.args["which"], "a receiver whose %s (2^32+5 bytes) differs from the sender's in byte %s derives the sender's context (same export)" % (
+                    op.args["which"], op.args["flip"]), case_text=sess.case_text(op.id), workload="giant-strings")
+        giant.run(env, "C07", ["info", "psk", "pskid"], [(0x0020, 1, 1)], judge)
+        giant.run(env, "C07", ["info"], [(0x0011, 2, 2)], judge)
     env.extra_cov["baselines"] = len(res.sessions)
     comps = {k.split(":")[1] for k in env.counts if k.startswith("component:")}
     need = {"info", "psk", "psk_id", "mode", "kdf", "aead", "recipient_key", "enc", "shift"}
